@@ -1047,3 +1047,15 @@ MUTANTS += [
         while let Some(file) = unused_files.pop() {
             let filepath = filepath(&self.dir, &file);""")]),
 ]
+
+REFACTORS += [
+    dict(name='add_policy_setter_api', desc='new public API to change the persist policy at run time (timing only)',
+         edits=[(MRL, """    /// Flush and optionnally fsync data
+    pub fn persist(""", """    /// Replace the persist policy.
+    pub fn set_persist_policy(&mut self, persist_policy: PersistPolicy) {
+        self.next_persist = persist_policy.into();
+    }
+
+    /// Flush and optionnally fsync data
+    pub fn persist(""")]),
+]
